@@ -1,7 +1,7 @@
 #!/usr/bin/env python3
 """Apply each mutant patch (mutants/<prop>__<name>.patch or seeded/<id>/patch.diff) to a scratch copy of /repo,
 run the owning check's quick tier against the copy (VERIF_REPO), expect exit 1 (VIOLATION). The copy is removed
-immediately. Usage: tools/run_mutants.py [filter-substring] [--tier quick|thorough] [--also C05,C07] [-j N]"""
+immediately. Usage: tools/run_mutants.py [filter-substring] [--tier quick|thorough] [--also C05,C07] [--prop C19] [-j N]"""
 import json
 import os
 import pathlib
@@ -19,6 +19,7 @@ def main():
     also = []
     filt = None
     jobs = 1
+    only_prop = None
     while args:
         a = args.pop(0)
         if a == "--tier":
@@ -27,6 +28,8 @@ def main():
             also = args.pop(0).split(",")
         elif a == "-j":
             jobs = int(args.pop(0))
+        elif a == "--prop":
+            only_prop = args.pop(0)
         else:
             filt = a
     items = []
@@ -74,7 +77,7 @@ def main():
             shutil.rmtree(tmp, ignore_errors=True)
         return out
 
-    todo = [it for it in items if not filt or filt in it[0]]
+    todo = [it for it in items if (not filt or filt in it[0]) and (only_prop is None or only_prop in it[1])]
     if jobs > 1:
         from concurrent.futures import ThreadPoolExecutor
 
